@@ -656,6 +656,15 @@ impl TreeSink for ModelDom {
                 }
             }
         }
+        // "the given form-associatable element": the HTML elements the standard lists as
+        // form-associated (html5ever's own `form_associatable` set)
+        const FORM_ASSOCIATABLE: &[&str] = &["button", "fieldset", "input", "object", "output", "select", "textarea", "img"];
+        if self.is_element(*target) && !FORM_ASSOCIATABLE.iter().any(|n| self.is_html_named(*target, n)) {
+            self.violate(
+                "associate_with_form",
+                format!("target {} is not a form-associatable HTML element", self.describe(*target)),
+            );
+        }
         if self.is_element(*form) && !self.is_html_named(*form, "form") {
             self.violate("associate_with_form", format!("form argument {} is not an HTML form element", self.describe(*form)));
         }
